@@ -3,6 +3,7 @@
   Statements only; proofs in `Pyab/Proofs/Routing.lean`.
 -/
 import Pyab.Spec.Semantics
+import Pyab.Properties.EvaluatorPremise
 import Pyab.Proofs.Routing
 import Pyab.Proofs.StrLit
 import Pyab.Generated.Config
